@@ -93,7 +93,7 @@ pub fn step_and_compare(sc: &Scenario, hist: &[Op], op: &Op, extra: &Extra, next
             }
         }
     }
-    Ok((obs.buf, obs.ty, st.acc.clone(), st.ty, *next, obs.hidden))
+    Ok((obs.buf, obs.ty, st.acc.clone(), st.ty, *next, if FINE_KEY.load(std::sync::atomic::Ordering::Relaxed) { obs.hidden } else { 0 }))
 }
 
 pub struct Explored {
@@ -104,10 +104,29 @@ pub struct Explored {
     pub complete: bool,
 }
 
+/// With FINE_KEY on, the digest of the parser's Debug text is part of the state key (hidden fields split states);
+/// off (default), the key is the hook-visible state only.
+pub static FINE_KEY: std::sync::atomic::AtomicBool = std::sync::atomic::AtomicBool::new(false);
+
 pub fn explore(run: &Run, sc: &Scenario, sink: &mut Sink) -> Explored {
+    explore_budget(run, sc, sink, None)
+}
+
+/// The exploration with the hidden-state digest in the key, limited to `budget` states: an object that carries a
+/// counter or a statistic in its Debug text never repeats a state, and the search is then cut off (reported, not a
+/// verdict) instead of unrolling every history.
+pub fn explore_fine(run: &Run, sc: &Scenario, sink: &mut Sink, budget: usize) -> Explored {
+    FINE_KEY.store(true, std::sync::atomic::Ordering::SeqCst);
+    let e = explore_budget(run, sc, sink, Some(budget));
+    FINE_KEY.store(false, std::sync::atomic::Ordering::SeqCst);
+    e
+}
+
+fn explore_budget(run: &Run, sc: &Scenario, sink: &mut Sink, budget: Option<usize>) -> Explored {
     let init_extra: Extra = (0, 0);
+    let fine = FINE_KEY.load(std::sync::atomic::Ordering::SeqCst);
     let mut seen: HashSet<Key> = HashSet::new();
-    seen.insert((vec![], None, vec![], None, init_extra, fnv(0, format!("{:?}", TlsRecordsParser::default()).as_bytes())));
+    seen.insert((vec![], None, vec![], None, init_extra, if fine { fnv(0, format!("{:?}", TlsRecordsParser::default()).as_bytes()) } else { 0 }));
     let mut frontier: Vec<(Vec<Op>, Extra)> = vec![(vec![], init_extra)];
     let mut transitions = 0usize;
     let mut depth = 0usize;
@@ -115,6 +134,10 @@ pub fn explore(run: &Run, sc: &Scenario, sink: &mut Sink) -> Explored {
     let mut complete = true;
     while !frontier.is_empty() {
         if depth >= sc.max_depth {
+            complete = false;
+            break;
+        }
+        if budget.map_or(false, |b| seen.len() > b) {
             complete = false;
             break;
         }
